@@ -893,6 +893,8 @@ class Interp(object):
         return self.subscript(base, idx, node)
 
     def slice(self, base, lo, hi, node):
+        if isinstance(base, Opt) and base.kind == "str":
+            base = self.none_obligation(base, node, "slice of None")
         if isinstance(base, str) and (lo is None or isinstance(lo, int)) and (hi is None or isinstance(hi, int)):
             return base[lo:hi]
         if isinstance(base, (tuple,)) and (lo is None or isinstance(lo, int)) and (hi is None or isinstance(hi, int)):
@@ -972,6 +974,10 @@ class Interp(object):
         return self.binop(node.op, a, b, node)
 
     def binop(self, op, a, b, node):
+        if isinstance(a, Opt) and a.kind == "str":
+            a = self.none_obligation(a, node, "string operation on None")
+        if isinstance(b, Opt) and b.kind == "str":
+            b = self.none_obligation(b, node, "string operation on None")
         if isinstance(op, ast.Add):
             if is_strlike(a) and is_strlike(b):
                 return mkstr([a, b])
@@ -1110,6 +1116,8 @@ class Interp(object):
 
     def equals(self, a, b, node):
         if isinstance(a, Opt) and isinstance(b, Opt):
+            if a.kind != b.kind:
+                return ops.And(a.isnone, b.isnone)      # a number never equals a string
             return ops.Or(ops.And(a.isnone, b.isnone),
                           ops.And(ops.Not(a.isnone), ops.Not(b.isnone), a.val == b.val))
         if isinstance(a, Opt):
@@ -1117,8 +1125,10 @@ class Interp(object):
         if isinstance(b, Opt):
             if a is None:
                 return b.isnone
-            if is_number(a):
+            if is_number(a) and b.kind == "num":
                 return ops.And(ops.Not(b.isnone), _cmp(a, b.val, lambda p, q: p == q))
+            if is_strlike(a) and b.kind == "str":
+                return ops.And(ops.Not(b.isnone), self.externals.str_equals(self, a, b.val, node))
             return False
         if a is None or b is None:
             return a is None and b is None
@@ -1177,6 +1187,8 @@ class Interp(object):
         if isinstance(v, (Obj, BoundMethod, ClassRef)):
             return True
         if isinstance(v, Opt):
+            if v.kind == "str":
+                return ops.And(ops.Not(v.isnone), self.truth_expr(v.val, node))
             return ops.And(ops.Not(v.isnone), v.val != 0)
         if isinstance(v, OptObj):
             return ops.Not(v.isnone)
@@ -1237,6 +1249,8 @@ class Interp(object):
         return self.call_value(fn, args, kwargs, node)
 
     def call_method(self, base, name, args, kwargs, node):
+        if isinstance(base, Opt) and base.kind == "str":
+            base = self.none_obligation(base, node, "method %s of None" % name)
         if isinstance(base, OptObj):
             base = self.unwrap(base, node, "method %s of None" % name)
         if isinstance(base, Obj):
@@ -1419,6 +1433,8 @@ def _cmp(x, y, f):
 # ---------------------------------------------------------------------- builtins
 def _bi_len(interp, args, kwargs, node):
     v = args[0]
+    if isinstance(v, Opt) and v.kind == "str":
+        v = interp.none_obligation(v, node, "len(None)")
     if isinstance(v, (str, tuple, list)):
         return len(v)
     if isinstance(v, PyList):
@@ -1493,6 +1509,8 @@ def _bi_float(interp, args, kwargs, node):
 
 def _bi_int(interp, args, kwargs, node):
     v = args[0]
+    if isinstance(v, Opt):
+        v = interp.none_obligation(v, node, "int(None)")
     if isinstance(v, bool):
         return int(v)
     if isinstance(v, int):
@@ -1545,6 +1563,9 @@ def _bi_str(interp, args, kwargs, node):
     v = args[0]
     if is_strlike(v):
         return v
+    if ops.is_sym(v) and z3.is_int(v):
+        interp.ctx.assumed.add("A2:str(int) is the decimal numeral (z3 int.to.str; non-negative integers)")
+        return z3.IntToStr(v)
     if isinstance(v, bool) or v is None:
         return str(v)
     if isinstance(v, int):
